@@ -66,6 +66,12 @@ def run_ulist(case, ctx):
             raise HarnessError(op)
         ctx.check('ulist_model', type(res) is ulist and leq(list(res), exp), lambda: 'ulist(%r) %s %r = %s %r, model %r' % (xs, op, other, type(res).__name__, list(res), exp))
         ctx.check('ulist_operand_unchanged', len(u) == len(s0) and all(a is b for a, b in zip(u, s0)), lambda: 'operand changed: %r -> %r' % (s0, list(u)))
+        # the result is a ulist of its own (also when the operation changed nothing): editing it in place leaves the operand alone
+        res.append('__edited_by_the_caller__')
+        if len(res) > 1:
+            res.remove(res[0])
+        ctx.check('ulist_operand_unchanged', res is not u and len(u) == len(s0) and all(a is b for a, b in zip(u, s0)), lambda: 'ulist(%r) %s %r: editing the result in place changed the operand: %r -> %r' % (xs, op, other, s0, list(u)))
+        res = type(res)(exp)
         res2 = res + res  # chained: stays unique
         ctx.check('ulist_model', type(res2) is ulist and leq(list(res2), exp), lambda: 'r + r = %r, model %r' % (list(res2), exp))
         if case.get('inplace'):
@@ -215,9 +221,20 @@ def run_mapping(case, ctx):
     elif op in ('add', 'or'):
         o = codec.dec(case['o'])
         oo = o if case.get('oplain') else classes()[case.get('ocls', 'dictattr')](o)
+        special = None
+        if case.get('subclass_value'):
+            # a value of `other` that is an instance of some other dict subclass (a Counter, an OrderedDict, possibly empty): a value like any other, it arrives untouched
+            import collections
+            special = {'counter': collections.Counter('aab'), 'ordered': collections.OrderedDict(b=1, a=2), 'empty_ordered': collections.OrderedDict(), 'empty_counter': collections.Counter(),
+                       'defaultdict': collections.defaultdict(list, x=[1])}[case['subclass_value']]
+            oo['sv'] = special
+            o = dict(o, sv=special)
+            ctx.cls('map:value_of_another_dict_subclass')
         so = snap(dict(oo))
         st, res = ctx.call((lambda: d + oo) if op == 'add' else (lambda: d | oo))
         exp = dict(base); exp.update(o)
+        if special is not None and st == 'ok':
+            ctx.check('mapping_model', 'sv' in res and res['sv'] is special and type(res['sv']) is type(special), lambda: 'd %s other: the value %r of other arrived as %s %r' % (op, special, type(res.get('sv')).__name__, res.get('sv')))
         if st == 'ok' and chk(res, exp, op):
             res['__new__'] = 1
             attr_mirror(res, op)
@@ -276,11 +293,11 @@ def run_mapping(case, ctx):
     ctx.cls('map:%s:%s' % (case['cls'], op))
 
 
-def mk_fn(key, deps, log, kwonly=0, dflt=False):
+def mk_fn(key, deps, log, kwonly=0, dflt=False, posdflt=False):
     """generated function: parameters are the dependency names (the last `kwonly` of them keyword-only, optionally with a default the mapping overrides);
     logs (key, args); value encodes its arguments"""
     npos = len(deps) - min(kwonly, len(deps))
-    params = list(deps[:npos]) + (['*'] + [('%s="DEFAULT"' % d_) if dflt else d_ for d_ in deps[npos:]] if npos < len(deps) else [])
+    params = [('%s="DEFAULT"' % d_) if posdflt else d_ for d_ in deps[:npos]] + (['*'] + [('%s="DEFAULT"' % d_) if dflt else d_ for d_ in deps[npos:]] if npos < len(deps) else [])
     src = 'lambda %s: _rec(%r, (%s))' % (', '.join(params), key, ''.join(d + ', ' for d in deps))
 
     def _rec(k, args):
@@ -302,7 +319,7 @@ def run_call(case, ctx):
     kwargs = {}
     for k in order:
         kwo = (case.get('kwonly') or {}).get(k, 0)
-        kwargs[k] = plain[k] if k in plain else mk_fn(k, graph[k], log, kwonly=abs(kwo), dflt=kwo < 0)
+        kwargs[k] = plain[k] if k in plain else mk_fn(k, graph[k], log, kwonly=abs(kwo), dflt=kwo < 0, posdflt=bool(case.get('posdflt')) and not kwo)
     # model: topological evaluation
     env = dict(base); env.update(plain)
     derived = set(graph)
@@ -365,6 +382,8 @@ def gen_map(rng):
     cls = rng.choice(['dictattr', 'Dict', 'MyAttr', 'MyDict'])
     op = rng.choice(['sub', 'sub', 'and', 'and', 'getlist', 'gettuple', 'add', 'or', 'relabel', 'attr'])
     case = {'kind': 'map', 'cls': cls, 'd': d, 'op': op}
+    if op in ('add', 'or') and rng.random() < 0.2:
+        case['subclass_value'] = rng.choice(['counter', 'ordered', 'empty_ordered', 'empty_counter', 'defaultdict'])
     absent = [k for k in KEYS + ['zz'] if k not in ks]
     if op in ('sub', 'and', 'getlist', 'gettuple'):
         mode = rng.choice(['present', 'absent', 'mixed', 'empty'])
@@ -500,6 +519,9 @@ def run(spec, ctx):
             for k_, deps_ in graph.items():
                 if deps_ and rng.random() < 0.5:
                     kwonly[k_] = rng.randint(1, len(deps_)) * rng.choice([1, 1, -1])
+        posdflt = rng.random() < 0.3         # every parameter declares a default of its own: what the mapping holds under that name (None included) still wins
+        if rng.random() < 0.3 and base:
+            base[rng.choice([b for b in base])] = None          # None is a value a mapping may hold
         ctx.cls('call:graphs')
         if len(allp) == len(list(itertools.islice(itertools.permutations(names), 5041))):
             ctx.cls('call:graphs_all_orders')
@@ -507,6 +529,8 @@ def run(spec, ctx):
             case = {'kind': 'call', 'base': base, 'graph': graph, 'plain': plain, 'order': list(order), 'cls': rng.choice(['Dict', 'Dict', 'MyDict'])}
             if kwonly:
                 case['kwonly'] = kwonly
+            if posdflt:
+                case['posdflt'] = True
             ctx.case(case)
             ctx.run_case(case, run_case)
             if ctx.full():
